@@ -14,6 +14,27 @@ TB = ("Trusted: Lean 4.33.0 kernel; axioms propext / Quot.sound / Classical.choi
       "schema data and tables are re-extracted from the working tree on every run (translator untrusted, exercised by the "
       "correspondence check), dependencies (cbor-smol, serde-indexed, serde_derive, heapless, cosey, iso7816) and the hand "
       "models are modelled, not verified, and validated only on the inputs the correspondence check generates.")
+TECH = {
+    "C01": "Lean 4 proof: mutual induction over a schema universe (round trip, any-order map loop) + decide obligations on request schemas regenerated from source; differential correspondence",
+    "C02": "Lean 4 proof: serializer = encoding of a declarative item (E1, mutual induction), null-freedom, framing; decide obligations on regenerated response schemas; differential correspondence",
+    "C03": "Lean 4 proof: pairwise-sorted declarations imply strictly increasing keys at every depth (G-CANON), key order = CTAP2 order of encoded bytes (G-ORDER); decide obligations; byte-level canonical checker on real output",
+    "C04": "Lean 4 proof (partial): total decoder model, panic/UB outcome unreachable by mutual induction (G-TOTAL); exhaustive short-input digests, mutation/nesting sweeps, debug-assertion builds, Miri (thorough)",
+    "C05": "Lean 4 proof: fault lemmas map each defect class to its status code over regenerated error tables; differential correspondence at every fault position",
+    "C06": "Lean 4 proof: skipper consumes exactly one item of an item universe (induction), unknown text keys skipped at every host; differential correspondence",
+    "C07": "Lean 4 proof: serializer bodies translated statement-by-statement to layout lists (obligation = specified layout), interpreter = model, layout theorem by case analysis + omega; differential correspondence",
+    "C08": "Lean 4 proof: decision-list theorems over a hand model of the U2F APDU parser + regenerated control-byte tables; differential correspondence incl. exhaustive headers",
+    "C09": "Lean 4 proof: response arms translated to layout lists (obligation = U2F raw format), append-chain theorems; differential correspondence over capacities",
+    "C10": "Lean 4 proof: dispatch arms regenerated as tables, lookup theorem + default-method obligations; differential correspondence with a recording mock",
+    "C11": "Lean 4 proof: kernel-evaluated (decide +kernel) obligations over all 256 command bytes on regenerated tables, lifted to every payload; differential correspondence",
+    "C12": "Lean 4 proof: exact-capacity theorems per leaf and list (G-CAP) over regenerated capacities; differential correspondence at every limit +-1",
+    "C13": "Lean 4 proof: UTF-8 scalar structure, 3-byte look-back always finds a boundary, truncation = longest whole-character prefix; window regenerated; differential correspondence; Miri (thorough)",
+    "C14": "Lean 4 proof: filter folds (order, capacity, unknown flag) by list induction over regenerated tables; loop-shape recognition in the translator; differential correspondence",
+    "C15": "Lean 4 proof: decode(encode v) = v and encode(decode b) = b by mutual induction under decidable well-formedness of regenerated schemas; differential correspondence",
+    "C16": "Lean 4 proof: schema-extension relation implies identical bytes / embedded values (G-EXT, mutual induction); decide obligations for all 27 ordered configuration pairs; cross-configuration correspondence",
+    "C17": "Lean 4 proof: framing theorem (fits completely or one error byte, prior content irrelevant) over regenerated response switch; differential correspondence around every capacity",
+    "C18": "Lean 4 proof: table theorems (distinct entries => exactly the listed spellings / discriminants) + decide obligations on regenerated identifier tables; differential correspondence with edits",
+    "C19": "Lean 4 proof (partial): model of the arbitrary-feature helpers, unwrap / from_utf8_unchecked outcomes unreachable (G-ARB); helper shapes and draw lists regenerated; validity oracle on real generators; Miri (thorough)",
+}
 checks = []
 for pid in ALL:
     if pid not in props.PROPS:
@@ -28,7 +49,7 @@ for pid in ALL:
         "engine": "lean4+diff",
         "level_claimed": {"category": "proof", "text": p["level_text"], "design_ref": f"DESIGN.md §5 {pid}"},
         "level_note": TB + (" " + p["level_note"] if p.get("level_note") else ""),
-        "technique": p.get("technique", "Lean 4 theorem over regenerated model data + differential correspondence"),
+        "technique": TECH.get(pid, "Lean 4 theorem over regenerated model data + differential correspondence"),
     })
 na = [{"property_id": pid, "reason": props.NOT_YET.get(pid, "not yet built in this session; no check registered")}
       for pid in ALL if pid not in props.PROPS]
